@@ -43,7 +43,12 @@ class Server(object):
         except Exception as e:
             logger.exception('%s error', name)
             is_ok = False
-            result = e.__class__.__name__, str(e)
+            try:
+                message = str(e)
+            except Exception:
+                # an exception that cannot describe itself is still only a failed request
+                message = 'unprintable {}'.format(e.__class__.__name__)
+            result = e.__class__.__name__, message
 
         # logger.error('PROCESS %r %r %r: %r', name, args, kwargs, result)
         return result, is_ok
